@@ -38,7 +38,7 @@ ASSUMPTIONS = [
 ]
 PROBES = ["resource-less form shared by two callers", "page interpreted twice", "split into >1 streams", "empty stream piece", "cut inside TJ array", "form invoked", "nested form", "form without own Resources", "operand fault: missing", "operand fault: ill-typed", "several operand faults in one program", "type3 font", "type0 font", "Tc nonzero across show operators", "double-quote operator", "TD sets leading", "q/Q restores text state", "text after form", "font cache eviction", "page origin non-zero"]
 TIERS = {
-    "quick": {"batches": 16, "runs": 1200, "budget_s": 45},
+    "quick": {"batches": 16, "runs": 1200, "budget_s": 90},
     "thorough": {"batches": 128, "runs": 2500, "budget_s": 900},
 }
 DETERMINISM_SLICE = 4
